@@ -2,7 +2,8 @@ import Rare.Base.Proto
 import Rare.Model.C15
 import Rare.Model.C15Tail
 /-!
-Driver of C15: `follow <notify|poll> <reopen> <tail> <history>` – the model's `expectedDelivered`.
+Driver of C15: `follow <notify|poll> <reopen> <tail> <history>` – the model's `expectedDelivered`;
+`tailb <cfg/history/lens>` – the batches of `TailFilesToChan` (`Rare.C15.Tail.tailToChan` on that stream).
 
 The history is executed on the transition systems of `Rare.Model.C15` with the schedule the harness
 enforces on the real code: after every writer operation the kernel goroutine and the reader run
